@@ -193,15 +193,21 @@ def subst(t: Any, mapping: Dict[Term, Term]) -> Any:
     return t
 
 
-def _reduce_fields(t: Any) -> Any:
-    """x.f where x is a constructed object whose field f is known (after a parameter was bound to the object)"""
+def _reduce_fields(t: Any, alias: Optional[Dict[str, str]] = None) -> Any:
+    """x.f where x is a constructed object whose field f is known (after a parameter was bound to the object); `alias`
+    maps property names to the attributes they stand for (x.stream was read as x._stream before x was known to be a
+    record that has a field called stream)"""
     if not isinstance(t, tuple) or not t:
         return t
-    r = tuple(_reduce_fields(x) for x in t)
+    r = tuple(_reduce_fields(x, alias) for x in t)
     if len(r) == 3 and r[0] == "attr" and isinstance(r[1], tuple) and r[1][:1] == ("new",) and isinstance(r[2], str):
         for f, v in r[1][2]:
             if f == r[2]:
                 return v
+        if alias and isinstance(r[1][1], str) and ":" in r[1][1]:
+            for f, v in r[1][2]:
+                if alias.get(f) == r[2]:
+                    return v
     return r
 
 
@@ -853,6 +859,9 @@ class FuncAnalysis:
                 if f == name:
                     return v
             if isinstance(t[1], str) and ":" in t[1]:
+                for f, v in t[2]:
+                    if self.model_property_alias(f) == name:
+                        return v  # the record's own field, read under the name a same-named property stands for elsewhere
                 rc_ = self.model.classes.get(t[1])
                 pm_ = self.model.find_method(rc_, name) if rc_ is not None else None
                 if pm_ is not None and pm_.is_property:
@@ -1081,7 +1090,10 @@ class FuncAnalysis:
         m = self.model
         if m.is_visitor(ci) or not (ci.name.startswith("_") or ci.parent_func is not None) or ci.name.startswith("__"):
             return None
-        if any(k is None for k, _v in kws) or any(isinstance(a_, tuple) and len(a_) == 3 and a_[0] == "op" and a_[1] == "Starred" for a_ in args):
+        if any(k is None for k, _v in kws):
+            return None
+        starred = [i for i, a_ in enumerate(args) if isinstance(a_, tuple) and len(a_) == 3 and a_[0] == "op" and a_[1] == "Starred"]
+        if starred and (len(starred) != 1 or starred[0] != len(args) - 1 or kws):
             return None
         cache = self.ctx.__dict__.setdefault("_record_shapes", {})
         shape = cache.get(ci.qual, False)
@@ -1093,6 +1105,14 @@ class FuncAnalysis:
         kind, params, stores, mutated = shape
         bind: Dict[Term, Term] = {}
         names = [p_ for p_, _d in params]
+        if starred:
+            # C(*t): the components of t fill the remaining parameters in order (python raises when the lengths differ)
+            src_ = args[-1][2][0]
+            head = list(args[:-1])
+            rest_n = len(names) - len(head)
+            if rest_n < 0:
+                return None
+            args = head + [self._index(src_, i_) for i_ in range(rest_n)]
         if len(args) > len(names):
             return None
         for p_, a_ in zip(names, args):
@@ -1269,7 +1289,8 @@ class FuncAnalysis:
             binding.setdefault(("param", p), ("top", f"unbound parameter {p} of {callee.name}"))
         out = subst(rt, binding)
         if any(isinstance(v, tuple) and v and v[0] == "new" for v in binding.values()):
-            out = _reduce_fields(out)
+            self.model_property_alias("")
+            out = _reduce_fields(out, FuncAnalysis._prop_alias_cache.get(id(self.model), {}))
         # normalisations that only matter when a vararg tuple, a bound method or a starred literal is involved
         need = a.vararg is not None or any(isinstance(v, tuple) and len(v) == 3 and v[0] == "attr" and v[2] in ("visit", "generic_visit") for v in binding.values())
         if not need and callee.cls is None and self.fi.cls is not None and self.fi.pos_params:
